@@ -13,6 +13,10 @@ open PyTok
 
 theorem run_bind {α β} (x : TM α) (f : α → TM β) (s : St) :
     (x >>= f).run s = (x.run s >>= fun p => (f p.1).run p.2) := by rfl
+theorem run_bind_ok {α β} {x : TM α} {f : α → TM β} {s s' : St} {a : α} (e : x.run s = .ok (a, s')) :
+    (x >>= f).run s = (f a).run s' := by rw [run_bind, e, ok_bind]
+theorem run_bind_err {α β} {x : TM α} {f : α → TM β} {s : St} {err : PyExc} (e : x.run s = .error err) :
+    (x >>= f).run s = .error err := by rw [run_bind, e, err_bind]
 theorem run_pure {α} (a : α) (s : St) : (pure a : TM α).run s = .ok (a, s) := by rfl
 theorem run_lift {α} (x : M α) (s : St) : (liftM x : TM α).run s = (x >>= fun a => .ok (a, s)) := by rfl
 theorem run_lift_ok {α} (x : M α) (a : α) (s : St) (h : x = .ok a) : (liftM x : TM α).run s = .ok (a, s) := by
@@ -25,6 +29,12 @@ theorem run_tryCatch {α} (x : TM α) (h : PyExc → TM α) (s : St) :
 theorem run_ite {α} (c : Prop) [Decidable c] (x y : TM α) (s : St) :
     (if c then x else y).run s = if c then x.run s else y.run s := by
   split <;> rfl
+/-- `return r` inside a `try` block -/
+theorem run_earlyReturn {ρ α : Type} (r : ρ) (s : St) :
+    StateT.run (EarlyReturnT.return r : EarlyReturnT ρ TM α) s = .ok (.error r, s) := by rfl
+/-- the end of a `try` block / handler that did not `return` -/
+theorem run_exceptT_pure {ρ α : Type} (a : α) (s : St) :
+    StateT.run (ExceptT.run (pure a : EarlyReturnT ρ TM α)) s = .ok (.ok a, s) := by rfl
 
 end TM
 
@@ -236,5 +246,399 @@ theorem process_python_str_eq_model (tok : Str) :
     cases e with
     | raw x => cases x <;> rfl
     | _ => rfl
+
+/-! ## `Agrees` -/
+
+theorem Agrees.ok {α} {view : α → PyVal} {x : PyTok.TM PyVal} {s s' : PyTok.St} {a : α} {m' : Mk.St}
+    (e : x.run s = .ok (view a, s')) (h : TokRel s' m') : Agrees view x s (.ok (a, m')) := ⟨s', e, h⟩
+
+theorem Agrees.err {α} {view : α → PyVal} {x : PyTok.TM PyVal} {s : PyTok.St}
+    (e : x.run s = .error "ParserSyntaxError") : Agrees view x s (.error .invalidMarker) := e
+
+/-- sequencing: a translated call whose result the model binds too -/
+theorem Agrees.bind {α β} {va : α → PyVal} {vb : β → PyVal} {x : PyTok.TM PyVal} {f : PyVal → PyTok.TM PyVal}
+    {s : PyTok.St} {r : Mk.Res (α × Mk.St)} {g : α × Mk.St → Mk.Res (β × Mk.St)}
+    (hx : Agrees va x s r) (hf : ∀ a s' m', TokRel s' m' → Agrees vb (f (va a)) s' (g (a, m'))) :
+    Agrees vb (x >>= f) s (r >>= g) := by
+  cases r with
+  | ok p =>
+    obtain ⟨a, m'⟩ := p
+    obtain ⟨s', e, h'⟩ := hx
+    have := hf a s' m' h'
+    show Agrees vb (x >>= f) s (g (a, m'))
+    cases hg : g (a, m') with
+    | ok q =>
+      obtain ⟨b, m''⟩ := q
+      rw [hg] at this
+      obtain ⟨s'', e', h''⟩ := this
+      exact ⟨s'', by rw [TM.run_bind, e, ok_bind]; exact e', h''⟩
+    | error err =>
+      rw [hg] at this
+      cases err <;> first | trivial | (show (x >>= f).run s = _; rw [TM.run_bind, e, ok_bind]; exact this)
+  | error err =>
+    cases err <;> first | trivial | (show (x >>= f).run s = _; rw [TM.run_bind, show x.run s = _ from hx, err_bind])
+
+/-- `tokenizer.consume(name)` followed by the rest -/
+theorem Agrees.consume {β} {vb : β → PyVal} {n : Str} {r : Mk.Rule} (hr : PyTok.ruleOf n = some (.mk r))
+    {f : PyVal → PyTok.TM PyVal} {s : PyTok.St} {m : Mk.St} (h : TokRel s m) {res : Mk.Res (β × Mk.St)}
+    (hf : ∀ s', TokRel s' (Mk.consume Mk.charTS r m) → Agrees vb (f .none) s' res) :
+    Agrees vb (PyTok.consume (.str n) >>= f) s res := by
+  obtain ⟨s', e, h'⟩ := consume_run h hr
+  have := hf s' h'
+  have e' : (PyTok.consume (.str n) >>= f).run s = (f .none).run s' := by rw [TM.run_bind, e, ok_bind]
+  unfold Agrees at this ⊢
+  rw [e']
+  exact this
+
+theorem Agrees.pure {α} {view : α → PyVal} {s : PyTok.St} {m : Mk.St} {a : α} {v : PyVal} (h : TokRel s m)
+    (hv : v = view a) : Agrees view (pure v) s (.ok (a, m)) := ⟨s, by rw [hv]; rfl, h⟩
+
+/-- a primitive step whose outcome is known -/
+theorem Agrees.step {α β} {vb : β → PyVal} {x : PyTok.TM α} {f : α → PyTok.TM PyVal} {s s' : PyTok.St} {a : α}
+    {res : Mk.Res (β × Mk.St)} (e : x.run s = .ok (a, s')) (hf : Agrees vb (f a) s' res) :
+    Agrees vb (x >>= f) s res := by
+  have e' : (x >>= f).run s = (f a).run s' := by rw [TM.run_bind, e, ok_bind]
+  unfold Agrees at hf ⊢
+  rw [e']
+  exact hf
+
+/-- a primitive step that raises `ParserSyntaxError` -/
+theorem Agrees.fail {α β} {vb : β → PyVal} {x : PyTok.TM α} {f : α → PyTok.TM PyVal} {s : PyTok.St}
+    (e : x.run s = .error "ParserSyntaxError") : Agrees vb (x >>= f) s (.error .invalidMarker) := by
+  show (x >>= f).run s = _
+  rw [TM.run_bind, e, err_bind]
+
+/-! ## `_parse_marker_var` -/
+
+theorem _parse_marker_var_agrees (s : PyTok.St) (m : Mk.St) (h : TokRel s m) :
+    Agrees ofNode Gen.PySrc._parse_marker_var s (Mk.parseVar Mk.charTS m) := by
+  simp only [Mk.parseVar, charTS_check]
+  cases hv : Mk.St.check .variable m with
+  | some p =>
+    obtain ⟨t, m'⟩ := p
+    refine Agrees.ok (s' := adv s t) ?_ (tokrel_adv h hv)
+    simp only [Gen.PySrc._parse_marker_var, TM.run_bind, check_some h rule_variable hv, ok_bind, truthy_bool, if_true,
+      read_pend, TM.run_lift, getattr_tok_text, str_replace_dot, process_env_var_eq_model]
+  | none =>
+    cases hq : Mk.St.check .quoted m with
+    | none =>
+      refine Agrees.err ?_
+      simp only [Gen.PySrc._parse_marker_var, TM.run_bind, check_none h rule_variable hv, check_none h rule_quoted hq,
+        ok_bind, truthy_bool, Bool.false_eq_true, if_false, PyTok.raise_syntax_error, TM.run_throw, err_bind]
+    | some p =>
+      obtain ⟨t, m'⟩ := p
+      have e0 : Gen.PySrc._parse_marker_var.run s =
+          (do
+            let p ← tryCatch
+                (do
+                  let p ← (do let a ← Gen.PySrc.process_python_str (PyVal.str t); Except.ok (a, adv s t))
+                  Except.ok ((Except.error p.fst : Except PyVal Unit), p.snd))
+                fun e => if (catches "SyntaxError" e || catches "ValueError" e) = true
+                  then Except.error "ParserSyntaxError" else Except.error e
+            StateT.run (EarlyReturn.runK p.fst (fun r => pure r) fun __r => pure PyVal.none) p.snd) := by
+        simp only [Gen.PySrc._parse_marker_var, TM.run_bind, check_none h rule_variable hv, check_some h rule_quoted hq,
+          ok_bind, truthy_bool, Bool.false_eq_true, if_false, if_true, position_run, read_pend, TM.run_lift, getattr_tok_text,
+          TM.run_tryCatch, TM.run_earlyReturn, TM.run_exceptT_pure, TM.run_ite, PyTok.raise_syntax_error, TM.run_throw,
+          err_bind]
+      rw [process_python_str_eq_model] at e0
+      show Agrees ofNode _ s (match Mk.pyStrLit t with
+        | .ok v => .ok (.val v, m') | .error _ => .error .invalidMarker)
+      cases hp : Mk.pyStrLit t with
+      | ok v =>
+        refine Agrees.ok (s' := adv s t) ?_ (tokrel_adv h hq)
+        rw [e0, hp]
+        rfl
+      | error e =>
+        refine Agrees.err ?_
+        rw [e0, hp]
+        cases e with
+        | raw x => cases x <;> rfl
+        | _ => rfl
+
+/-! ## `_parse_marker_op` -/
+
+theorem s_in_eq : ofString "in" = Mk.s_in := by rfl
+theorem s_not_in_eq : ofString "not in" = Mk.s_not_in := by rfl
+
+theorem _parse_marker_op_agrees (s : PyTok.St) (m : Mk.St) (h : TokRel s m) :
+    Agrees ofOp Gen.PySrc._parse_marker_op s (Mk.parseOp Mk.charTS m) := by
+  simp only [Mk.parseOp, charTS_check]
+  cases hi : Mk.St.check .kwIn m with
+  | some p =>
+    obtain ⟨t, m'⟩ := p
+    refine Agrees.ok (s' := adv s t) ?_ (tokrel_adv h hi)
+    simp only [Gen.PySrc._parse_marker_op, TM.run_bind, check_some h rule_in hi, ok_bind, truthy_bool, if_true,
+      read_pend, TM.run_lift, node_init, s_in_eq, ofOp]
+  | none =>
+    cases hn : Mk.St.check .kwNot m with
+    | some p =>
+      obtain ⟨t1, m1⟩ := p
+      have h1 := tokrel_adv h hn
+      dsimp only
+      cases hw : Mk.St.check .ws m1 with
+      | none =>
+        refine Agrees.err ?_
+        simp only [Gen.PySrc._parse_marker_op, TM.run_bind, check_none h rule_in hi, check_some h rule_not hn, ok_bind,
+          truthy_bool, Bool.false_eq_true, if_false, if_true, read_pend, expect_none h1 rule_ws hw, err_bind]
+      | some p =>
+        obtain ⟨t2, m2⟩ := p
+        have h2 := tokrel_adv h1 hw
+        dsimp only
+        cases hi2 : Mk.St.check .kwIn m2 with
+        | none =>
+          refine Agrees.err ?_
+          simp only [Gen.PySrc._parse_marker_op, TM.run_bind, check_none h rule_in hi, check_some h rule_not hn, ok_bind,
+            truthy_bool, Bool.false_eq_true, if_false, if_true, read_pend, expect_some h1 rule_ws hw,
+            expect_none h2 rule_in hi2, err_bind]
+        | some p =>
+          obtain ⟨t3, m3⟩ := p
+          refine Agrees.ok (s' := adv (adv (adv s t1) t2) t3) ?_ (tokrel_adv h2 hi2)
+          simp only [Gen.PySrc._parse_marker_op, TM.run_bind, check_none h rule_in hi, check_some h rule_not hn, ok_bind,
+            truthy_bool, Bool.false_eq_true, if_false, if_true, read_pend, expect_some h1 rule_ws hw,
+            expect_some h2 rule_in hi2, TM.run_lift, node_init, s_not_in_eq, ofOp]
+    | none =>
+      cases ho : Mk.St.check .op m with
+      | some p =>
+        obtain ⟨t, m'⟩ := p
+        refine Agrees.ok (s' := adv s t) ?_ (tokrel_adv h ho)
+        simp only [Gen.PySrc._parse_marker_op, TM.run_bind, check_none h rule_in hi, check_none h rule_not hn,
+          check_some h rule_op ho, ok_bind, truthy_bool, Bool.false_eq_true, if_false, if_true,
+          read_pend, TM.run_lift, getattr_tok_text, node_init, ofOp]
+      | none =>
+        refine Agrees.err ?_
+        simp only [Gen.PySrc._parse_marker_op, TM.run_bind, check_none h rule_in hi, check_none h rule_not hn,
+          check_none h rule_op ho, ok_bind, truthy_bool, Bool.false_eq_true, if_false,
+          PyTok.raise_syntax_error, TM.run_throw]
+
+/-! ## `_parse_marker_item` -/
+
+theorem _parse_marker_item_agrees (s : PyTok.St) (m : Mk.St) (h : TokRel s m) :
+    Agrees ofAtom Gen.PySrc._parse_marker_item s (Mk.parseItem Mk.charTS m) := by
+  unfold Gen.PySrc._parse_marker_item Mk.parseItem
+  refine Agrees.consume rule_ws h fun s1 h1 => ?_
+  refine Agrees.bind (_parse_marker_var_agrees _ _ h1) fun l s2 m2 h2 => ?_
+  refine Agrees.consume rule_ws h2 fun s3 h3 => ?_
+  refine Agrees.bind (_parse_marker_op_agrees _ _ h3) fun o s4 m4 h4 => ?_
+  refine Agrees.consume rule_ws h4 fun s5 h5 => ?_
+  refine Agrees.bind (_parse_marker_var_agrees _ _ h5) fun r s6 m6 h6 => ?_
+  refine Agrees.consume rule_ws h6 fun s7 h7 => ?_
+  exact Agrees.pure h7 rfl
+
+/-! ## `_parse_marker`, `_parse_marker_atom` (fuel-indexed) -/
+
+theorem ofMs_append (a b : List Mk.M) : ofMs (a ++ b) = ofMs a ++ ofMs b := by
+  induction a with
+  | nil => simp [ofMs]
+  | cons x xs ih => simp [ofMs, ih]
+
+/-- the locals of the `while` loop of `_parse_marker`: `token`, `expr_right`, `expression`, and the "left by `break`" flag -/
+abbrev LoopSt := PyVal × PyVal × PyVal × Bool
+
+/-- `Agrees` for the loop: it ends by `break` with the model's list in `expression` -/
+def LoopAgrees (x : PyTok.TM LoopSt) (s : PyTok.St) (r : Mk.Res (List Mk.M × Mk.St)) : Prop :=
+  match r with
+  | .ok (res, m') => ∃ s' tok er, x.run s = .ok ((tok, er, .list (ofMs res), true), s') ∧ TokRel s' m'
+  | .error .fuel => True
+  | .error _ => x.run s = .error "ParserSyntaxError"
+
+/-- the `while tokenizer.check("BOOLOP")` loop is `Mk.parseRest`: any loop body that breaks when there is no BOOLOP and
+otherwise reads it, parses an atom and extends `expression`, run over more items than the model has fuel -/
+theorem while_loop_agrees (atom : PyTok.TM PyVal) (body : Nat → LoopSt → PyTok.TM (ForInStep LoopSt)) (n : Str)
+    (hdone : ∀ i st s m, TokRel s m → Mk.St.check .boolop m = none →
+      (body i st).run s = .ok (.done (st.1, st.2.1, st.2.2.1, true), s))
+    (hstep : ∀ i st s m t m1, TokRel s m → Mk.St.check .boolop m = some (t, m1) →
+      (body i st).run s = (do
+        let p ← atom.run (adv s t)
+        let e ← list_extend st.2.2.1 (.tuple [.str t, p.1])
+        .ok (.yield (tokObj s n t, p.1, e, st.2.2.2), p.2)))
+    (g : Nat) (hatom : ∀ g', g' < g → ∀ s m, TokRel s m → Agrees ofM atom s (Mk.parseAtom Mk.charTS g' m)) :
+    ∀ (l : List Nat), g < l.length → ∀ (acc : List Mk.M) (tok er : PyVal) (fl : Bool) (s : PyTok.St) (m : Mk.St),
+      TokRel s m →
+      LoopAgrees (forIn l (tok, er, .list (ofMs acc), fl) body) s (Mk.parseRest Mk.charTS g acc m) := by
+  induction g with
+  | zero => intros; simp only [Mk.parseRest]; trivial
+  | succ g ih =>
+    intro l hl acc tok er fl s m h
+    cases l with
+    | nil => simp at hl
+    | cons i l =>
+      have hl' : g < l.length := by simpa using hl
+      simp only [Mk.parseRest, charTS_check, List.forIn_cons]
+      cases hb : Mk.St.check .boolop m with
+      | none =>
+        refine ⟨s, tok, er, ?_, h⟩
+        rw [TM.run_bind, hdone i _ s m h hb, ok_bind]
+        rfl
+      | some p =>
+        obtain ⟨t, m1⟩ := p
+        dsimp only
+        have ha := hatom g (Nat.lt_succ_self g) (adv s t) m1 (tokrel_adv h hb)
+        have hrun := hstep i (tok, er, .list (ofMs acc), fl) s m t m1 h hb
+        cases hpa : Mk.parseAtom Mk.charTS g m1 with
+        | error e =>
+          rw [hpa] at ha
+          cases e <;> first
+            | trivial
+            | (show StateT.run _ s = _
+               rw [TM.run_bind, hrun, show atom.run (adv s t) = _ from ha]; rfl)
+        | ok q =>
+          obtain ⟨b, m2⟩ := q
+          rw [hpa] at ha
+          obtain ⟨s2, e2, h2⟩ := ha
+          have hnext := ih (fun g' hg' => hatom g' (Nat.lt_succ_of_lt hg')) l hl' (acc ++ [.bool t, b])
+            (tokObj s n t) (ofM b) fl s2 m2 h2
+          have hrun' : (body i (tok, er, .list (ofMs acc), fl)).run s =
+              .ok (.yield (tokObj s n t, ofM b, .list (ofMs (acc ++ [.bool t, b])), fl), s2) := by
+            rw [hrun, e2]
+            simp only [ok_bind, list_extend_list_tuple, ofMs_append, ofMs, ofM]
+          show LoopAgrees _ s (Mk.parseRest Mk.charTS g (acc ++ [.bool t, b]) m2)
+          unfold LoopAgrees at hnext ⊢
+          rw [TM.run_bind_ok hrun']
+          exact hnext
+
+/-- … followed by the code after the loop, which hands `expression` back when the loop was left by `break` -/
+theorem Agrees.while_loop {atom : PyTok.TM PyVal} {body : Nat → LoopSt → PyTok.TM (ForInStep LoopSt)} {n : Str}
+    {g : Nat} {l : List Nat} {acc : List Mk.M} {tok er : PyVal} {fl : Bool} {s : PyTok.St} {m : Mk.St}
+    {k : LoopSt → PyTok.TM PyVal}
+    (hdone : ∀ i st s m, TokRel s m → Mk.St.check .boolop m = none →
+      (body i st).run s = .ok (.done (st.1, st.2.1, st.2.2.1, true), s))
+    (hstep : ∀ i st s m t m1, TokRel s m → Mk.St.check .boolop m = some (t, m1) →
+      (body i st).run s = (do
+        let p ← atom.run (adv s t)
+        let e ← list_extend st.2.2.1 (.tuple [.str t, p.1])
+        .ok (.yield (tokObj s n t, p.1, e, st.2.2.2), p.2)))
+    (hatom : ∀ g', g' < g → ∀ s m, TokRel s m → Agrees ofM atom s (Mk.parseAtom Mk.charTS g' m))
+    (hl : g < l.length) (h : TokRel s m)
+    (hk : ∀ tok er e s, (k (tok, er, e, true)).run s = .ok (e, s)) :
+    Agrees ofML (forIn l (tok, er, .list (ofMs acc), fl) body >>= k) s (Mk.parseRest Mk.charTS g acc m) := by
+  have := while_loop_agrees atom body n hdone hstep g hatom l hl acc tok er fl s m h
+  unfold LoopAgrees at this
+  unfold Agrees
+  cases hr : Mk.parseRest Mk.charTS g acc m with
+  | ok p =>
+    obtain ⟨res, m'⟩ := p
+    rw [hr] at this
+    obtain ⟨s', tok', er', e, h'⟩ := this
+    exact ⟨s', by rw [TM.run_bind_ok e, hk]; rfl, h'⟩
+  | error err =>
+    rw [hr] at this
+    cases err <;> first | trivial | exact TM.run_bind_err this
+
+/-- the translated functions with fuel `F` agree with the model at any fuel `f ≤ F` (the model also spends a unit
+per loop iteration) -/
+theorem _parse_marker_fuel_agrees : ∀ (f F : Nat), f ≤ F → ∀ (s : PyTok.St) (m : Mk.St), TokRel s m →
+    Agrees ofML (Gen.PySrc._parse_marker__fuel F) s (Mk.parseMarker Mk.charTS f m) ∧
+    Agrees ofM (Gen.PySrc._parse_marker_atom__fuel F) s (Mk.parseAtom Mk.charTS f m) := by
+  intro f
+  induction f using Nat.strongRecOn with
+  | ind f ih =>
+    intro F hF s m h
+    cases f with
+    | zero => simp only [Mk.parseMarker, Mk.parseAtom]; exact ⟨trivial, trivial⟩
+    | succ f =>
+      obtain ⟨F, rfl⟩ : ∃ F', F = F' + 1 := ⟨F - 1, by omega⟩
+      have hF' : f ≤ F := by omega
+      constructor
+      · -- `_parse_marker`
+        simp only [Gen.PySrc._parse_marker__fuel, Mk.parseMarker]
+        refine Agrees.bind (ih f (Nat.lt_succ_self f) F hF' s m h).2 fun a s1 m1 h1 => ?_
+        dsimp only
+        refine Agrees.while_loop (atom := Gen.PySrc._parse_marker_atom__fuel F) (n := ofString "BOOLOP") (acc := [a])
+          ?hdone ?hstep (fun g' hg' s m h => (ih g' (by omega) F (by omega) s m h).2) (by simp; omega) h1 ?hk
+        case hdone =>
+          intro i st s m h hb
+          simp only [TM.run_bind, check_none h rule_boolop hb, ok_bind, truthy_bool, Bool.not_false, if_true,
+            TM.run_pure]
+        case hstep =>
+          intro i st s m t m1 h hb
+          simp only [TM.run_bind, check_some h rule_boolop hb, ok_bind, truthy_bool, Bool.not_true,
+            Bool.false_eq_true, if_false, read_pend, TM.run_lift, getattr_tok_text, TM.run_pure, bind_assoc]
+        case hk =>
+          intro tok er e s
+          simp only [Bool.not_true, Bool.false_eq_true, if_false, TM.run_pure]
+      · -- `_parse_marker_atom`
+        simp only [Gen.PySrc._parse_marker_atom__fuel, Mk.parseAtom, charTS_check]
+        refine Agrees.consume rule_ws h fun s1 h1 => ?_
+        cases hp : Mk.St.check .lparen (Mk.consume Mk.charTS .ws m) with
+        | none =>
+          refine Agrees.step (check_none h1 rule_lparen hp _) ?_
+          simp only [truthy_bool, Bool.false_eq_true, if_false]
+          refine Agrees.bind (_parse_marker_item_agrees _ _ h1) fun a s2 m2 h2 => ?_
+          refine Agrees.consume rule_ws h2 fun s3 h3 => ?_
+          exact Agrees.pure h3 rfl
+        | some p =>
+          obtain ⟨t, m2⟩ := p
+          refine Agrees.step (check_peek_some h1 rule_lparen hp) ?_
+          simp only [truthy_bool, if_true]
+          refine Agrees.step (enclosing_open_some h1 rule_lparen hp) ?_
+          refine Agrees.consume rule_ws (tokrel_adv h1 hp) fun s3 h3 => ?_
+          refine Agrees.bind (ih f (Nat.lt_succ_self f) F hF' _ _ h3).1 fun l s4 m4 h4 => ?_
+          refine Agrees.consume rule_ws h4 fun s5 h5 => ?_
+          dsimp only
+          cases hrp : Mk.St.check .rparen (Mk.consume Mk.charTS .ws m4) with
+          | none => exact Agrees.fail (enclosing_close_none _ h5 rule_rparen hrp)
+          | some p =>
+            obtain ⟨t', m6⟩ := p
+            refine Agrees.step (enclosing_close_some _ h5 rule_rparen hrp) ?_
+            refine Agrees.consume rule_ws (tokrel_adv h5 hrp) fun s7 h7 => ?_
+            exact Agrees.pure h7 (by simp only [ofM, ofML])
+
+/-! ## the entry points -/
+
+theorem _parse_marker_agrees (s : PyTok.St) (m : Mk.St) (h : TokRel s m) (f : Nat) (hf : f ≤ PyTok.fuelOf s []) :
+    Agrees ofML Gen.PySrc._parse_marker s (Mk.parseMarker Mk.charTS f m) := by
+  unfold Gen.PySrc._parse_marker
+  exact Agrees.step (TM.run_get s) (_parse_marker_fuel_agrees f _ hf s m h).1
+
+theorem _parse_marker_atom_agrees (s : PyTok.St) (m : Mk.St) (h : TokRel s m) (f : Nat) (hf : f ≤ PyTok.fuelOf s []) :
+    Agrees ofM Gen.PySrc._parse_marker_atom s (Mk.parseAtom Mk.charTS f m) := by
+  unfold Gen.PySrc._parse_marker_atom
+  exact Agrees.step (TM.run_get s) (_parse_marker_fuel_agrees f _ hf s m h).2
+
+theorem fuelFor_le (src : Str) : Mk.fuelFor src.length ≤ PyTok.fuelOf (start src) [] := by
+  simp only [Mk.fuelFor, PyTok.fuelOf, start]
+  omega
+
+/-- `_parse_full_marker` on a fresh tokenizer -/
+theorem _parse_full_marker_eq_model (s : PyTok.St) (m : Mk.St) (h : TokRel s m) (f : Nat) (hf : f ≤ PyTok.fuelOf s [])
+    (hfuel : Mk.parseFull Mk.charTS f m ≠ .error .fuel) :
+    PyTok.run Gen.PySrc._parse_full_marker s =
+      match Mk.parseFull Mk.charTS f m with
+      | .ok l => .ok (ofML l)
+      | .error _ => .error "ParserSyntaxError" := by
+  have hA := _parse_marker_agrees s m h f hf
+  unfold Mk.parseFull at hfuel ⊢
+  unfold Gen.PySrc._parse_full_marker PyTok.run
+  cases hp : Mk.parseMarker Mk.charTS f m with
+  | error e =>
+    rw [hp] at hA hfuel
+    cases e with
+    | fuel => exact absurd rfl hfuel
+    | _ => rw [TM.run_bind_err (show Gen.PySrc._parse_marker.run s = _ from hA)]; rfl
+  | ok p =>
+    obtain ⟨l, m'⟩ := p
+    rw [hp] at hA
+    obtain ⟨s', e, h'⟩ := hA
+    rw [TM.run_bind_ok e]
+    show _ = match Mk.St.check .end_ m' with
+      | some _ => _
+      | none => _
+    cases he : Mk.St.check .end_ m' with
+    | none => rw [TM.run_bind_err (expect_none h' rule_end he)]; rfl
+    | some q =>
+      obtain ⟨t, m''⟩ := q
+      rw [TM.run_bind_ok (expect_some h' rule_end he)]; rfl
+
+theorem parse_marker_eq_model (src : Str) (hfuel : Mk.parse src ≠ .error .fuel) :
+    Gen.PySrc.parse_marker (.str src) =
+      match Mk.parse src with
+      | .ok l => .ok (ofML l)
+      | .error _ => .error "ParserSyntaxError" := by
+  have := _parse_full_marker_eq_model (start src) ⟨none, src⟩ (start_rel src) _ (fuelFor_le src) hfuel
+  unfold Gen.PySrc.parse_marker
+  show (PyTok.run Gen.PySrc._parse_full_marker (start src) >>= fun r => pure r) = _
+  rw [this]
+  unfold Mk.parse
+  cases Mk.parseFull Mk.charTS (Mk.fuelFor src.length) ⟨none, src⟩ <;> rfl
 
 end Src
